@@ -253,6 +253,35 @@ fn main() {
             run.violation(Viol { property: "C07".into(), signature: format!("bloom fp rate n={} p={}", n, p), message: format!("BloomFilter::with_properties({}, {}): exact false-positive frequency over the whole (h1,h2) probe space, mean over {} hasher seeds = {:.5} +- {:.5} (> 1.3 p even after 4 standard errors)", n, p, vals.len(), mean, se), replay: json!({"structure": "BloomFilter", "n": n, "p": p, "m": vals[0].1, "k": vals[0].2, "keys": "0..n under seeded SipHash", "probe_space": "all m^2 (h1,h2) pairs", "per_seed_fp": vals.iter().map(|v| v.0).collect::<Vec<_>>()}) });
         }
     }
+    // large filters (m beyond 2^20 bits): the probe space cannot be enumerated; a fixed family of 2*10^6
+    // never-inserted structured keys under the default hasher is counted instead (deterministic, but a
+    // sample of the probe space: reported as exploration, verdict only beyond 4 binomial standard errors)
+    let big_cells: Vec<(usize, f64)> = if thorough { vec![(150_000, 1e-3), (200_000, 1e-4), (400_000, 1e-2)] } else { vec![(150_000, 1e-3), (200_000, 1e-4)] };
+    let big = par_map(&big_cells, n_threads(), |&(n, p)| {
+        let mut f = BloomFilter::<u64>::with_properties(n, p);
+        for x in 0..n as u64 {
+            f.insert(&x.wrapping_mul(0x9E3779B97F4A7C15)).unwrap();
+        }
+        let probes = 2_000_000u64;
+        let mut fp = 0u64;
+        for y in 0..probes {
+            // odd multiples never coincide with the inserted even-structured keys: use a disjoint family
+            let key = (y + n as u64 + 17).wrapping_mul(0x9E3779B97F4A7C15);
+            if f.query(&key) {
+                fp += 1;
+            }
+        }
+        (n, p, f.m(), f.k(), fp, probes)
+    });
+    for (n, p, m, k, fp, probes) in big {
+        let rate = fp as f64 / probes as f64;
+        let se = (1.3 * p * (1.0 - 1.3 * p) / probes as f64).sqrt();
+        let verdict = if rate - 4.0 * se > 1.3 * p { "ABOVE 1.3p" } else { "ok" };
+        rate_rows.push(json!({"filter": "bloom (large, 2e6 structured probes)", "n": n, "p": p, "m": m, "k": k, "fp_over_p": (rate / p * 1000.0).round() / 1000.0, "verdict": verdict}));
+        if verdict != "ok" {
+            run.violation(Viol { property: "C07".into(), signature: format!("bloom fp rate large n={} p={}", n, p), message: format!("BloomFilter::with_properties({}, {}) (m = {}, k = {}): {} of {} never-inserted keys reported present = {:.2} p (> 1.3 p beyond 4 standard errors)", n, p, m, k, fp, probes, rate / p), replay: json!({"structure": "BloomFilter", "n": n, "p": p, "keys": "x * 0x9E3779B97F4A7C15 for x in 0..n", "probes": "(y + n + 17) * 0x9E3779B97F4A7C15 for y in 0..2000000", "false_positives": fp}) });
+        }
+    }
     // cuckoo
     let mut cjobs = vec![];
     for variant in [4usize, 8] {
